@@ -583,8 +583,70 @@ func clMutate(kind, param string, data []byte) ([]byte, bool) {
 			return data, true
 		}
 		return append(append([]byte("+00"), data[:i]...), data[i:]...), true
+	case "tail":
+		return clMutateTail(param, data)
 	}
 	return nil, false
+}
+
+// clMutateTail: the "altered tail" family on a lookup response (network or cache file).  The record and the signed TEXT
+// of the tree note are kept byte for byte; only what follows the blank line that ends the note text (the signature
+// block — the one part of the response that is neither hashed into the tree nor covered by the signature) is replaced
+// by attacker-chosen bytes.  Every variant must be rejected by a client that opens the note of each response; a client
+// that recognises an already verified head by its text alone accepts them.
+//
+//	lines      go.sum-shaped lines for the record's own module@version with attacker hashes, no signature at all
+//	lines+sig  the same lines, then the honest signature lines
+//	sig+lines  the honest signature lines, then the same lines
+//	badsig     one signature line with the honest key name and key hash but attacker bytes as the signature
+//	empty      nothing after the blank line
+func clMutateTail(variant string, data []byte) ([]byte, bool) {
+	switch variant {
+	case "lines", "lines+sig", "sig+lines", "badsig", "empty":
+	default:
+		return nil, false
+	}
+	rec, text, sigs, ok := clSplitLookup(data)
+	if !ok || len(sigs) < 2 {
+		return data, true // not a record followed by a note (a tile, a truncated file): no-op fault
+	}
+	hsig := sigs[1:] // without the blank line
+	// forged go.sum lines: the lines of the record with other hashes
+	var forged []byte
+	i := bytes.IndexByte(rec, '\n')
+	for _, ln := range strings.Split(string(rec[i+1:]), "\n") {
+		f := strings.Fields(ln)
+		if len(f) != 3 {
+			continue
+		}
+		h := sha256.Sum256([]byte("tail-forged|" + ln))
+		forged = append(forged, []byte(f[0]+" "+f[1]+" h1:"+base64.StdEncoding.EncodeToString(h[:])+"\n")...)
+	}
+	out := append(append(append([]byte(nil), rec...), text...), '\n')
+	switch variant {
+	case "lines":
+		out = append(out, forged...)
+	case "lines+sig":
+		out = append(append(out, forged...), hsig...)
+	case "sig+lines":
+		out = append(append(out, hsig...), forged...)
+	case "badsig":
+		line := strings.SplitN(string(hsig), "\n", 2)[0]
+		f := strings.Split(line, " ")
+		if len(f) != 3 {
+			return data, true
+		}
+		raw, err := base64.StdEncoding.DecodeString(f[2])
+		if err != nil || len(raw) < 5 {
+			return data, true
+		}
+		for k := 4; k < len(raw); k++ {
+			raw[k] = byte(0x5a + k)
+		}
+		out = append(out, []byte(f[0]+" "+f[1]+" "+base64.StdEncoding.EncodeToString(raw)+"\n")...)
+	case "empty":
+	}
+	return out, true
 }
 
 // clSplitLookup splits a lookup response into record part (through the blank line), note text, signature block.
